@@ -136,8 +136,10 @@ func readSizedArray(r io.Reader, size any, data *[]byte) error {
 	if err != nil {
 		return err
 	}
-	if _, err := r.Read(result); err != nil {
-		return err
+	if len(result) != 0 {
+		if _, err := io.ReadFull(r, result); err != nil {
+			return fmt.Errorf("failed to read %d byte array: %w", len(result), err)
+		}
 	}
 	*data = result
 	return nil
